@@ -204,7 +204,7 @@ def analyse_unit(name, canary):
         site_spans = (prim + sec) if "precondition" in d["message"] else (sec + prim)
         for s in site_spans:
             f = find_function(u, s["line_start"])
-            if f and f["mode"] == "prove":
+            if f and f["mode"] in ("prove", "item"):
                 fn = f
                 o = origin_of(u, s["line_start"])
                 if o and o[0] == "repo":
@@ -424,6 +424,11 @@ def main():
             if fl.get("function") not in mine:
                 other_failed.append({"unit": n, "function": fl.get("function"), "obligation": fl.get("label") or fl["message"]})
     failed_fn_other = set((o["unit"], o["function"]) for o in other_failed)
+    # functions whose only failures are listed known findings are accounted for separately
+    viol_fns = set((fl["unit"], fl.get("function")) for fl in violations)
+    for k_, fl in known_hits:
+        if (fl["unit"], fl.get("function")) not in viol_fns:
+            failed_fn_other.add((fl["unit"], fl.get("function")))
     n_other_failed = 0
     for n in sorted(results):
         r = results[n]
@@ -431,10 +436,17 @@ def main():
             if not f.get("success"):
                 # a failed Verus query; is it one of the functions that failed only for other properties?
                 nm = f.get("function", "")
+                matched = False
                 for (u_, k_) in failed_fn_other:
                     if u_ == n and k_ and nm.split("::")[-1].replace("__canary", "") == k_.split(".")[-1]:
-                        n_other_failed += 1
+                        matched = True
                         break
+                if not matched and not any(fl["unit"] == n for fl in violations):
+                    # a failed query in a unit with no violation for this property: it belongs to
+                    # another property or to a listed known finding (e.g. extracted static initialisers)
+                    matched = any(u_ == n for (u_, k_) in failed_fn_other)
+                if matched:
+                    n_other_failed += 1
     assumed_contracts = sorted(k for k in used_keys if k not in all_proved)
     proved_elsewhere = sorted(k for k in used_keys if k in all_proved and k not in proved_keys)
     trusted_base = []
@@ -466,6 +478,7 @@ def main():
             "undecided": [{"unit": u, "reason": why} for (u, why, _) in undecided],
             "known_findings_matched": [k.get("what", "") for k, _ in known_hits],
             "failed_obligations_of_other_properties": other_failed,
+            "known_finding_obligations": [fl["label_full"] + " @ " + str((fl.get("site") or {}).get("file")) for k_, fl in known_hits],
         },
         "assumptions": trusted_base,
         "wall_s": round(wall, 2),
